@@ -115,7 +115,15 @@ def nsv_some(values, port):
 
 VALIDATORS = {'nsv_some': nsv_some, 'v_not1': v_not1, 'nsv_no_x': nsv_no_x, 'v_short': v_short, 'v_not1_old': v_not1_old, 'nsv_no_x_old': nsv_no_x_old, 'v_not1_raises': v_not1_raises}
 MODEL_VALIDATORS = {'nsv_some': nsv_some, 'v_not1': v_not1, 'nsv_no_x': nsv_no_x, 'v_short': v_short, 'v_not1_old': v_not1, 'nsv_no_x_old': nsv_no_x, 'v_not1_raises': v_not1}
-CALLABLES = {'d7': d7, 'd_s': d_s, 'cls_A': A, 'cls_list': list, 'serial': Serial}  # (a class is a callable default like any other: evaluated per construction)
+def ns_empty():
+    return {}
+
+
+def ns_partial():
+    return {'n': 5}
+
+
+CALLABLES = {'ns_empty': ns_empty, 'ns_partial': ns_partial, 'd7': d7, 'd_s': d_s, 'cls_A': A, 'cls_list': list, 'serial': Serial}  # (a class is a callable default like any other: evaluated per construction)
 NAMES = ['a', 'ab', 'n', 'm', 'x']
 
 
@@ -266,8 +274,12 @@ def rand_inputs(rng, ns):
             out[key] = _good_value(rng, dyn_vt)
         elif choice < 0.7:
             out[key] = {'r': _good_value(rng, dyn_vt), 'deep': {'t': _good_value(rng, dyn_vt)}}
-        elif choice < 0.85:
+        elif choice < 0.78:
             out[key] = {'r': _bad_value(rng, dyn_vt)}
+        elif choice < 0.9:
+            # several entries at a level, the wrong one not the first (nor necessarily at the first level)
+            out[key] = {'r': _good_value(rng, dyn_vt), 's': _bad_value(rng, dyn_vt)} if rng.random() < 0.5 else {
+                'r': _good_value(rng, dyn_vt), 'deep': {'t': _good_value(rng, dyn_vt), 'u': _bad_value(rng, dyn_vt)}}
         else:
             out[key] = {}
     return out
@@ -301,6 +313,11 @@ def _factory_specs():
     yield ['ns', {}, {'x': ['ns', {'default': ['val', {'m': {}}]}, {'m': m}]}]
     yield ['ns', {}, {'x': ['ns', {'default': ['val', {'m': {'m': {}}}]}, {'m': ['ns', {}, {'m': copy.deepcopy(m), 'n': ['port', {'default': ['call', 'cls_A']}]}]}]}]
     yield ['ns', {}, {'x': ['ns', {'default': ['val', {}]}, dict(leafs)], 'm': copy.deepcopy(m)}]
+    # ... and namespaces whose default is a callable: what it returns is a value given for the namespace like any other (completed with
+    # the defaults of what is declared inside, read-only at every declared level)
+    yield ['ns', {}, {'x': ['ns', {'default': ['call', 'ns_empty']}, dict(leafs)]}]
+    yield ['ns', {}, {'x': ['ns', {'default': ['call', 'ns_partial']}, {'n': ['port', {'valid_type': 'int'}], 'ab': ['port', {'default': ['val', 's'], 'valid_type': 'str'}],
+                                                                        'm': ['ns', {}, {'a': ['port', {'default': ['val', 3]}]}]}]}]
 
 
 def gen_cases(tier, seed):
